@@ -8,7 +8,11 @@ use serde::{
     ser::{self, Impossible, SerializeStruct},
     Serialize,
 };
-use std::{collections::HashMap, fmt::Display, iter::FromIterator, sync::Arc};
+#[cfg(kani)]
+use crate::verif_map::HashMap;
+#[cfg(not(kani))]
+use std::collections::HashMap;
+use std::{fmt::Display, iter::FromIterator, sync::Arc};
 use thiserror::Error;
 
 #[cfg(feature = "chrono")]
